@@ -3,7 +3,7 @@ so that models stay small, replayable and shrinkable."""
 from .prng import Rng
 
 TEXT_ALPHABET = "abcdefghijklmnopqrstuvwxyz ABCDEFGHIJKLMNOPQRSTUVWXYZ0123456789,.;:-_()[]{}<>!?*+=/'#@$%^&|~`"
-MULTI = ["é", "ß", "λ", "я", "€", "あ", "漢", "😀", "𝄞"]
+MULTI = ["é", "ß", "λ", "я", "€", "あ", "漢", "😀", "𝄞", "\ufeff"]   # (U+FEFF is ordinary content wherever it stands)
 
 
 _TABLE = bytes(TEXT_ALPHABET[i % len(TEXT_ALPHABET)].encode()[0] for i in range(256))
@@ -59,6 +59,15 @@ def _expand(spec):
             p += 1 + r.range(0, linemax)
         if spec.get("final_nl") and n > 0 and out[n - 1] < 0x80:
             out[n - 1] = 10
+        if spec.get("bom") and n >= 8:
+            # the text starts with U+FEFF (a byte-order mark is content like any other character);
+            # a complete ASCII filler follows so that no multi-byte sequence is cut
+            out[0:3] = b"\xef\xbb\xbf"
+            out[3:8] = b"bom: "
+            j = 8
+            while j < n and (out[j] & 0xC0) == 0x80:   # orphaned continuation bytes of an overwritten character
+                out[j] = 0x78
+                j += 1
         return bytes(out)
     if t == "eth":  # Ethernet frame with an ethertype p2sh does not parse further; rest random
         b = bytearray(Rng(spec["seed"]).bytes(max(n, 14)))
